@@ -176,6 +176,35 @@ pub fn run(ctx: &Ctx) {
         check(v)
     }, |v| json!({"debug": format!("{v:?}")}), "fixed");
 
+    // real-world Serialize implementations (derive attributes, std / chrono / serde_json types): differential with serde_json
+    let types = super::c13_types::cases();
+    ctx.list(
+        "real-serialize-impls",
+        &types,
+        |t, acc| {
+            use super::c13_types::Expect;
+            acc.case(&format!("types:{:?}", t.expect), true, || format!("{} => {:?}", t.name, t.reval.as_ref().map(|r| r.as_ref().map(show_value))));
+            let r = match &t.reval {
+                Err(p) => return Err(Issue::new(format!("ser:panic:{}", loc(p)), format!("serializing `{}` panicked: {p}", t.name))),
+                Ok(r) => r,
+            };
+            match (t.expect, r) {
+                (Expect::Error, Ok(v)) => Err(Issue::new("ser:missing-error:type", format!("`{}` must fail to serialize but gave {}", t.name, show_value(v)))),
+                (Expect::Error, Err(_)) | (Expect::KeyDependent, Err(_)) => Ok(()),
+                (Expect::Image, Err(e)) => Err(Issue::new("ser:unexpected-error:type", format!("`{}` failed to serialize: {e}", t.name))),
+                (_, Ok(v)) => match &t.json {
+                    Some(j) if !same_value(v, j, true) => Err(Issue::new(
+                        "ser:differs-from-json:type",
+                        format!("image of `{}` is {} but its serde_json image is {}", t.name, show_value(v), show_value(j)),
+                    )),
+                    _ => Ok(()),
+                },
+            }
+        },
+        |t| json!({"type_case": t.name}),
+        "type",
+    );
+
     let lim = limits();
     ctx.enumerate(
         "kinds-at-limits",
@@ -216,6 +245,23 @@ pub fn run(ctx: &Ctx) {
 }
 
 pub fn replay(j: &serde_json::Value) -> Option<Verdict> {
+    if let Some(name) = j.get("type_case").and_then(|x| x.as_str()) {
+        use super::c13_types::Expect;
+        let t = super::c13_types::cases().into_iter().find(|t| t.name == name)?;
+        let r = match &t.reval {
+            Err(p) => return Some(Err(Issue::new("ser:panic", format!("serializing `{}` panicked: {p}", t.name)))),
+            Ok(r) => r.clone(),
+        };
+        return Some(match (t.expect, &r) {
+            (Expect::Error, Ok(_)) => Err(Issue::new("ser:missing-error:type", t.name.clone())),
+            (Expect::Image, Err(e)) => Err(Issue::new("ser:unexpected-error:type", format!("{}: {e}", t.name))),
+            (_, Ok(v)) => match &t.json {
+                Some(j) if !same_value(v, j, true) => Err(Issue::new("ser:differs-from-json:type", t.name.clone())),
+                _ => Ok(()),
+            },
+            _ => Ok(()),
+        });
+    }
     if let Some(i) = j.get("limit_index").and_then(|x| x.as_u64()) {
         return limits().get(i as usize).map(check);
     }
